@@ -368,6 +368,12 @@ fn c09_reader(db: DB, sc: Scenario, log: Log) -> Box<dyn FnOnce(Arc<Inner>) + Se
                 let close_seq = g.tick();
                 drop(tx);
                 log.lock().unwrap().push(Ev::ReaderClose { seq: close_seq });
+                // the built-in consistency check is a read-only operation too: it must neither fail nor
+                // wait for an open writer (this thread holds no transaction now)
+                g.point(sched::P_STEP);
+                if let Err(e) = db.check() {
+                    log.lock().unwrap().push(Ev::Panic { seq: g.tick(), msg: format!("DB::check() on a reader thread failed: {}", e) });
+                }
             });
             if let Err(p) = r {
                 log.lock().unwrap().push(Ev::Panic { seq: g.tick(), msg: format!("reader panicked at {}:{}: {}", p.file, p.line, p.msg) });
@@ -396,6 +402,8 @@ pub struct St {
     pub increments: u64,
     pub free_runs: u64,
     pub final_checks: u64,
+    pub exactly_full_starts: u64,
+    pub check_calls: u64,
     pub distinct: BTreeSet<u64>,
     pub nontrivial: BTreeSet<u64>,
 }
@@ -417,6 +425,14 @@ fn execute(sc: &Scenario, mode: Mode, path: &std::path::Path, st: &mut St) -> Re
     let mut workers: Vec<Box<dyn FnOnce(Arc<Inner>) + Send>> = Vec::new();
     let is_c04 = sc.property == "C04";
     let s0_reach = reach_of_newest(path, sc.pagesize);
+    {
+        let head = snap::read_prefix(path, 2 * sc.pagesize);
+        if let (Some(m), _) = fileck::choose_meta(&head, sc.pagesize) {
+            if std::fs::metadata(path).map(|md| md.len() == m.num_pages * sc.pagesize).unwrap_or(false) {
+                st.exactly_full_starts += 1;
+            }
+        }
+    }
     let inside = Arc::new(AtomicI32::new(0));
     let mut roles: Vec<&'static str> = Vec::new();
     if is_c04 && !sc.script.is_empty() {
@@ -524,6 +540,14 @@ fn execute(sc: &Scenario, mode: Mode, path: &std::path::Path, st: &mut St) -> Re
             let rep = fileck::check(&img, sc.pagesize);
             if !rep.ok() {
                 viol.push((format!("final-state:file-unsound:{}", exec::fileck_sig(&rep.errors[0])), format!("after all threads finished the file is unsound: {}", rep.errors[0])));
+            }
+        }
+        // every transaction has ended: nothing may be left in the shared reader list (a registration that
+        // outlives its reader pins every page freed from then on)
+        if trace.inconclusive.is_none() {
+            let shared = db.verif_state();
+            if !shared.readers.is_empty() {
+                viol.push(("final-state:reader-still-registered".into(), format!("after all threads finished and every transaction was dropped the list of open readers is {:?}", shared.readers)));
             }
         }
         st.final_checks += 1;
@@ -811,6 +835,13 @@ pub fn scenarios(prop: &str, thorough: bool) -> Vec<Scenario> {
             Scenario { readers: 2, commits: 2, rereads: 1, ..base.clone() },
             Scenario { commits: 4, rereads: 1, reads_per_reader: 2, ..base.clone() },
             Scenario { commits: 2, grow_at: 2, num_pages: 16, ..base.clone() },
+            // a commit that grows the file FOLLOWED by page-reusing commits: a reader that begins while
+            // the growing commit is writing must survive the commits after it
+            Scenario { commits: 4, grow_at: 2, num_pages: 16, rereads: 2, ..base.clone() },
+            Scenario { readers: 2, commits: 3, grow_at: 1, num_pages: 16, rereads: 1, ..base.clone() },
+            // the set-up commit leaves the 7-page file full to its last page: the first writer begins on an
+            // exactly full file (and its commit extends it) while readers are open on other threads
+            Scenario { readers: 2, commits: 3, num_pages: 7, rereads: 1, ..base.clone() },
             // three readers of different ages (the oldest may close first)
             Scenario { readers: 3, commits: 4, rereads: 1, ..base.clone() },
             // two writer threads extending one chain (a writer may queue behind an open writer)
@@ -829,6 +860,8 @@ pub fn scenarios(prop: &str, thorough: bool) -> Vec<Scenario> {
             b.clone(),
             Scenario { writers: 3, increments_per_writer: 1, readers: 1, ..b.clone() },
             Scenario { writers: 2, increments_per_writer: 2, readers: 2, grow_at: 1, num_pages: 8, ..b.clone() },
+            // exactly full 7-page file at the first writer's begin (see C04)
+            Scenario { writers: 2, increments_per_writer: 2, readers: 2, num_pages: 7, ..b.clone() },
         ];
         if thorough {
             v.push(Scenario { writers: 3, increments_per_writer: 2, readers: 2, rereads: 1, ..b.clone() });
@@ -1018,6 +1051,7 @@ pub fn run(ctx: &Ctx, prop: &str) -> Shard {
     shard.distinct = st.distinct.clone();
     shard.nontrivial = st.nontrivial.clone();
     shard.count("executions", st.executions);
+    shard.count("executions_starting_on_an_exactly_full_file", st.exactly_full_starts);
     shard.count("scheduling_decisions", st.decisions);
     shard.count("preemptions", st.preemptions);
     shard.count("workers_found_blocked_on_a_lock", st.blocked_detected);
